@@ -847,6 +847,7 @@ impl TxPoolService {
         for tx in txs {
             let tx_size = tx.data().serialized_size_in_block();
             let tx_hash = tx.hash();
+            let detached = tx.clone();
             if let Ok((rtx, status)) = resolve_tx(tx_pool, tx_pool.snapshot(), tx, false)
                 && let Ok(fee) = check_tx_fee(tx_pool, tx_pool.snapshot(), &rtx, tx_size)
             {
@@ -871,6 +872,11 @@ impl TxPoolService {
                         debug!("readd_detached_tx submit_entry {}", tx_hash);
                     }
                 }
+            }
+            // The transaction is neither on the chain nor back in the pool: the pooled
+            // transactions which spend its outputs have lost their inputs.
+            if !tx_pool.contains_proposal_id(&detached.proposal_short_id()) {
+                tx_pool.remove_by_detached_tx(&detached, &self.callbacks);
             }
         }
     }
